@@ -347,6 +347,7 @@ Proof.
   destruct (rdn (socks n) fd) as [k| | |]; cbn [bind] in H; try discriminate.
   destruct (pollpos k); [discriminate|].
   match type of H with (if ?b then _ else _) = _ => destruct b; [|discriminate] end.
+  match type of H with (if ?b then _ else _) = _ => destruct b; [|discriminate] end.
   inversion H; subst n'. simpl. apply length_upd_nth.
 Qed.
 
@@ -585,7 +586,8 @@ Section Ops5.
     destruct (G5_c4 fl s c HG) as [x4 [H4 [HS HR]]].
     destruct o.
     - (* OImmReg *)
-      unfold exec_op in H. destruct af as [|af]; cbn [Nat.eqb negb] in H.
+      unfold exec_op in H. destruct (prio <? PRIO_LIMIT); [|discriminate].
+      destruct af as [|af]; cbn [Nat.eqb negb] in H.
       + destruct (imm_register cb prio (next_rid (s_cl s)) (s_imm s)) as [im| | |] eqn:Ei; cbn [bind] in H; try discriminate.
         inversion H; subst s'. clear H.
         eexists. split; [|apply (upd5_ctl c)].
